@@ -46,6 +46,8 @@ struct Opd {
   int64_t d = 0;           // displacement / absolute address
   int64_t v = 0;           // immediate
   int fwd = 0, pad = 0;    // label: forward reference with `pad` bytes between the instruction and the label
+  int ld = 0;              // memory with a Label base (bt = "lbl", fwd / pad as for label operands): position of the label relative to the
+                           // START of the instruction, filled in by the executor; d = offset added to the label
   int abs = 0;             // label: 1 = the target is passed as an absolute Imm address (CodeHolder with a known base address), id = target - instruction start
 };
 
@@ -82,10 +84,16 @@ static inline Reg make_reg(const std::string& c, int id) {
   fprintf(stderr, "unknown reg class %s\n", c.c_str()); exit(3);
 }
 
-static inline x86::Mem make_mem(const Opd& o) {
+// L: the label of a memory operand with a Label base (bt = "lbl"); the caller creates / binds it
+static inline x86::Mem make_mem(const Opd& o, const Label* L = nullptr) {
   x86::Mem m;
   bool vidx = o.it == "xmm" || o.it == "ymm" || o.it == "zmm";
-  if (o.bt == "rip") m = x86::ptr(x86::rip, int32_t(o.d));
+  if (o.bt == "lbl" && L) {
+    if (o.it.empty()) m = x86::ptr(*L, int32_t(o.d));
+    else if (vidx) m = x86::ptr(*L, make_reg(o.it, o.i).as<x86::Vec>(), o.sh, int32_t(o.d));
+    else m = x86::ptr(*L, make_reg(o.it, o.i).as<x86::Gp>(), o.sh, int32_t(o.d));
+  }
+  else if (o.bt == "rip") m = x86::ptr(x86::rip, int32_t(o.d));
   else if (!o.bt.empty()) {
     x86::Gp base = make_reg(o.bt, o.b).as<x86::Gp>();
     if (o.it.empty()) m = x86::ptr(base, int32_t(o.d));
@@ -111,6 +119,7 @@ static inline x86::Mem make_mem(const Opd& o) {
 // descriptor -> asmjit operand (labels are created / bound by the caller)
 static inline bool build_operand(const Opd& o, Operand_& out) {
   if (o.t == 'r') { out = make_reg(o.c, o.id); return true; }
+  if (o.t == 'm' && o.bt == "lbl") return false;       // needs a Label: the caller builds it with make_mem(o, &label)
   if (o.t == 'm') { out = make_mem(o); return true; }
   if (o.t == 'i') { out = Imm(o.v); return true; }
   return false;
@@ -158,6 +167,7 @@ static inline void write_request(vj::W& w, const Inst& ob) {
       w.kv("sz", o.sz).kv("sg", o.sg).kv("bt", o.bt).kv("b", o.b).kv("it", o.it).kv("i", o.i).kv("sh", o.sh).kv("bc", o.bc).kv("at", o.at);
       bytes8(w, "d", o.d);
       w.kv("dv", std::to_string((long long)o.d));       // decimal text, for humans / replay only
+      if (o.bt == "lbl") w.kv("ld", o.ld).kv("fwd", o.fwd).kv("pad", o.pad);
     } else if (o.t == 'i') { bytes8(w, "v", o.v); w.kv("iv", std::to_string((long long)o.v)); }
     else { w.kv("id", o.id).kv("fwd", o.fwd).kv("pad", o.pad).kv("abs", o.abs); }
     w.endObj();
@@ -255,7 +265,7 @@ static std::vector<int64_t> imm_pool(int bits, const std::string& sgn) {
   return v;
 }
 
-struct MemShape { std::string bt; int b; std::string it; int i; int sh; int64_t d; int sg; int at; int px = 0; };   // px: prefix-sensitive row
+struct MemShape { std::string bt; int b; std::string it; int i; int sh; int64_t d; int sg; int at; int px = 0; int lfwd = 0, lpad = 0; };   // px: prefix-sensitive row
 
 static std::vector<int64_t> disp_pool(int N) {
   std::vector<int64_t> v = {0, 1, -1, 127, 128, -128, -129, 2147483647ll, -2147483648ll, 0x1234, -0x4321};
@@ -331,6 +341,16 @@ static std::vector<MemShape> mem_grid(int mode, const std::string& vsib, int N, 
         if (at != 2 && (d == int64_t(0x80000000ll) || d == int64_t(0x7FFFFFFF))) addpx(d, 6, at);     // gs:
       }
     if (mode == 64) { addpx(-1, 0, 1); addpx(int64_t(-0x80000000ll), 0, 1); }
+  }
+  if (g_gen.cross) {
+    // [label + off]: label bound BEFORE the instruction at several distances, and unbound (bound after it); 64-bit mode = rip-relative
+    // (the displacement depends on the length of everything that follows it, i.e. on the form's immediate), 32-bit mode = relocated absolute
+    auto addl = [&](int fwd, int pad, int64_t off, std::string it = "", int i = 0, int sh = 0) {
+      MemShape s{"lbl", 0, it, i, sh, off, 0, 0}; s.lfwd = fwd; s.lpad = pad; g.push_back(s);
+    };
+    addl(0, 0, 0); addl(0, 1, 8); addl(0, 127, -4); addl(0, 128, 0x7FFFFF00); addl(0, 4096, 0); addl(0, 0, -4); addl(0, 127, 8); addl(0, 4096, 0x7FFFFF00);
+    addl(1, 0, 0); addl(1, 1, 8); addl(1, 127, -4); addl(1, 4096, 0);
+    if (mode == 32) { addl(0, 1, 8, nat, 1, 2); addl(1, 127, 0, nat, 6, 3); }
   }
   add(nat, 0, nat, 1, 2, 128, 6);                                    // gs:[ax+cx*4+128]
   add(nat, 3, "", 0, 0, 8, 1); add(nat, 3, "", 0, 0, 8, 4); add(nat, 5, "", 0, 0, 8, 3); add(nat, 3, "", 0, 0, 8, 2);   // es ds ss cs overrides
@@ -475,7 +495,7 @@ static void instantiate(const Form& f, int mode, size_t rot, CB&& cb) {
           if (fo.msz > 0 && r0 % 5 == 4 && !fo.bcst) o.sz = 0;             // size left unspecified
           if (modrmMem && int(j) == memJ) {
             const MemShape& s = grid[size_t(pr.row) % grid.size()];
-            o.bt = s.bt; o.b = s.b; o.it = s.it; o.i = s.i; o.sh = s.sh; o.d = s.d; o.sg = s.sg; o.at = s.at;
+            o.bt = s.bt; o.b = s.b; o.it = s.it; o.i = s.i; o.sh = s.sh; o.d = s.d; o.sg = s.sg; o.at = s.at; o.fwd = s.lfwd; o.pad = s.lpad;
             if (fo.bcst && r0 % 3 == 1) {
               static const int vl[] = {128, 256, 512};
               int bits = f.l >= 0 && f.l <= 2 ? vl[f.l] : 128;
@@ -556,6 +576,7 @@ static inline Inst read_request(const vj::Value& v) {
       d.sz = int(o.find("sz")->i()); d.sg = int(o.find("sg")->i()); d.bt = o.find("bt")->s(); d.b = int(o.find("b")->i()); d.it = o.find("it")->s();
       d.i = int(o.find("i")->i()); d.sh = int(o.find("sh")->i()); d.bc = int(o.find("bc")->i()); d.at = int(o.find("at")->i());
       d.d = strtoll(o.find("dv")->s().c_str(), nullptr, 10);
+      if (d.bt == "lbl") { d.fwd = int(o.find("fwd")->i()); d.pad = int(o.find("pad")->i()); }
     } else if (d.t == 'i') d.v = strtoll(o.find("iv")->s().c_str(), nullptr, 10);
     else { d.fwd = int(o.find("fwd")->i()); d.pad = int(o.find("pad")->i()); if (o.find("abs")) d.abs = int(o.find("abs")->i()); if (d.abs) d.id = int(o.find("id")->i()); }
     ob.ops.push_back(d);
